@@ -5,7 +5,7 @@
    type + ordinal among the fields of that kind), listed in the order of those identifiers, as the translator
    lists them in [p_structs].  So it compiles whatever the Go source looks like; whether these values ARE what the
    code builds is a matter of the late proofs (e.g. gen_MakeFromArray). *)
-From Verif Require Import Base MiniGo GenSrc.
+From Verif Require Import Base Seq MiniGo GenSrc.
 
 Section Rep.
 Variable A : Type.
@@ -16,6 +16,10 @@ Definition elems (l : list A) : list (val A) := map VElem l.
 Definition it_val (cls : val A) (l : list A) (slot : Z) : val A :=
   VObj id_iterator_ [(f_int0, VInt (Z.of_nat (length l))); (f_slice0, VSlice (elems l));
                      (f_nil0, cls); (f_int1, VInt slot)].
+
+(* an iterator of the model (Seq.iter) as an object *)
+Definition mk_it (l : list A) (k : nat) : iter A := {| it_vals := l; it_slot := k |}.
+Definition it_rep (cls : val A) (i : iter A) : val A := it_val cls (it_vals i) (Z.of_nat (it_slot i)).
 
 (* collection/array.go: array_ is a named slice type *)
 Definition arr_val (l : list A) : val A := VNamed id_array_ (VSlice (elems l)).
@@ -43,6 +47,25 @@ Definition rank_ext (rank : A -> A -> comparison) (t m : ident) (r : val A) (arg
     | [VElem a; VElem b] => Some (VInt (rank_code (rank a b)))
     | _ => None
     end
+  else if Pos.eqb t id_collatorClass_ && Pos.eqb m id_Make then
+    match args with [] => Some (VObj id_collator_ []) | _ => None end
+  else None.
+
+(* agent/sorter.go: sorter_ {class_ (nil0), ranker_ (nil1)}; the ranking function is the method value RankValues of a
+   collator (what Sorter[V]().Make() and the Sort methods of the collections install), answered by [rank_ext] *)
+Definition ranker_val : val A := VMeth col_val id_RankValues.
+Definition srt_val (cls : val A) : val A := VObj id_sorter_ [(f_nil0, cls); (f_nil1, ranker_val)].
+
+(* list.GetIndex compares through a fresh default collator: Collator[V]().Make() and its CompareValues are answered
+   by the oracle [cmp_ext eqb] *)
+Definition cmp_ext (eqb : A -> A -> bool) (t m : ident) (r : val A) (args : list (val A)) : option (val A) :=
+  if Pos.eqb t id_collatorClass_ && Pos.eqb m id_Make then
+    match args with [] => Some col_val | _ => None end
+  else if Pos.eqb t id_collator_ && Pos.eqb m id_CompareValues then
+    match args with
+    | [VElem a; VElem b] => Some (VBool (eqb a b))
+    | _ => None
+    end
   else None.
 
 (* no external methods are needed by the other functions translated so far *)
@@ -51,4 +74,4 @@ End Rep.
 
 Arguments elems {A}. Arguments it_val {A}. Arguments arr_val {A}. Arguments lcls_val {A}.
 Arguments lst_val {A}. Arguments stk_val {A}. Arguments no_ext {A}.
-Arguments col_val {A}. Arguments set_val {A}. Arguments rank_ext {A}.
+Arguments col_val {A}. Arguments set_val {A}. Arguments rank_ext {A}. Arguments cmp_ext {A}. Arguments ranker_val {A}. Arguments srt_val {A}.
